@@ -410,3 +410,26 @@ def read_ndjson(path):
             line = line.strip()
             if line:
                 yield json.loads(line)
+
+
+def tlaps(c, name, wd, timeout=600):
+    """Unbounded complement: a small TLAPS proof (spec/proofs/<name>.tla).  Recorded in the
+    evidence when it goes through; never a verdict (back-end provers time out under load)."""
+    src = os.path.join(SPEC, "proofs", name + ".tla")
+    d = os.path.join(wd, "tlaps")
+    os.makedirs(d, exist_ok=True)
+    shutil.copy(src, d)
+    try:
+        rc, out, dt = run(["tlapm", "--threads", "4", "--stretch", "3", name + ".tla"], timeout, cwd=d)
+    except (ToolError, FileNotFoundError) as e:
+        c.note("TLAPS proof %s not checked: %s" % (name, e))
+        return
+    m = re.search(r"All (\d+) obligations? proved", out)
+    if not m:
+        # a complement, never a verdict: provers time out under load
+        c.note("TLAPS proof %s was not completed in this run (%s)" % (name, " ".join(out.split())[-200:]))
+        return
+    c.cov.setdefault("proof_complements", []).append(
+        {"module": "proofs/" + name + ".tla", "obligations_proved": int(m.group(1)), "wall_s": round(dt, 1),
+         "checker": "tlapm"})
+    log("[tlaps] %s: %s obligations proved, %.1fs" % (name, m.group(1), dt))
